@@ -15,7 +15,7 @@ def worker(prog, key):
     rl = roles.get(name, [])
     if capcheck.NOSLACK and name in ("handle_error", "handle_werror"):
         rl = []          # in the no-slack build their length parameter is unused, not a capacity: the one-element store is an obligation of each call site
-    res, info = capcheck.analyse(fn, rl, prog, roles)
+    res, info = capcheck.analyse(fn, rl, prog, roles, want_kinds=("W", "R", "L"))
     und = [x for x in res if not (x["lo"] and x["hi"]) and x.get("const_index") and not x["role"].startswith(("local:", "global:"))
            and (x["what"] in ("store", "load") or (capcheck.NOSLACK and x["what"] in ("call handle_error", "call handle_werror")))]
     if und:
